@@ -27,13 +27,17 @@ import (
 //	loop    i := c; loop Body; i--; br_if i != 0 end
 //	fill    memory.fill(D, V, N)         copy    memory.copy(D, S, N)
 type Stmt struct {
-	K    string `json:"k"`
-	Op   string `json:"op,omitempty"`
-	Src  string `json:"src,omitempty"`
-	B    uint32 `json:"b,omitempty"`
-	Off  uint32 `json:"off,omitempty"`
-	V    uint64 `json:"v,omitempty"`
-	V2   uint64 `json:"v2,omitempty"` // cmpxchg: the expected operand (V is the replacement)
+	K   string `json:"k"`
+	Op  string `json:"op,omitempty"`
+	Src string `json:"src,omitempty"`
+	B   uint32 `json:"b,omitempty"`
+	Off uint32 `json:"off,omitempty"`
+	V   uint64 `json:"v,omitempty"`
+	V2  uint64 `json:"v2,omitempty"` // cmpxchg: the expected operand (V is the replacement)
+	// Hold (plain scalar loads): the loaded value stays on the operand stack across a direct call of a LOCAL function
+	// ("call": function 1; "callgrow": function 2, which grows - and thereby moves - the memory) before it is consumed.
+	// The load happens where the instruction stands: before the call.
+	Hold string `json:"hold,omitempty"`
 	D    uint32 `json:"d,omitempty"`
 	S    uint32 `json:"s,omitempty"`
 	N    uint32 `json:"n,omitempty"`
@@ -151,6 +155,12 @@ func emit(ss []Stmt) []byte {
 					out = append(out, i32c(uint32(s.V))...)
 				}
 				out = append(out, memarg...)
+				switch s.Hold {
+				case "call":
+					out = append(out, wb.Call(1)...)
+				case "callgrow":
+					out = append(out, wb.Call(2)...)
+				}
 				if !oi.i64 {
 					out = append(out, wasm.OpcodeI64ExtendI32U)
 				}
@@ -418,6 +428,9 @@ func (r *ref) exec(ss []Stmt) int {
 				}
 			default:
 				r.fold(old)
+				if s.Hold == "callgrow" {
+					r.grow(1)
+				}
 			}
 		case "setcb":
 			r.cb = s.B
